@@ -34,8 +34,11 @@ for d in sorted(glob.glob(os.path.join(V, 'seeded', '*', 'meta.json'))):
     continue
   for k, v in sorted(m.get('check_results', {}).items()):
     cls = (v['classes'] or [''])[0].split(' ')[0].replace('class=', '')
+    verdict = v['verdict']
+    if m.get('final_verdict') and verdict == 'missed':
+      verdict = 'not detected, by decision (outside the property as stated)'
     rows.append('| %s | %s | %s | %s | %s | %s | %s |' % (
-        m['id'], m['property'], m['needs_to_manifest'], k, v['verdict'], cls,
+        m['id'], m['property'], m['needs_to_manifest'], k, verdict, cls,
         (v.get('minimised') or {}).get('to_ops', '')))
 block('SEEDED_TABLE', '\n'.join(rows))
 open(p, 'w').write(s)
